@@ -19,6 +19,7 @@ from ..runner import Part
 PID = "C20"
 TECHNIQUE = ("exhaustive enumeration of the catalogue, SI prefixes and documentation rows + Hypothesis amounts, "
              "against a hand-written SI / yard-pound / IEC reference table")
+LEVEL_TEXT = ("The whole domain is finite and enumerated: 110 + 3 units, every ordered pair per type, 20 prefixes, every documentation row, the regenerated documentation; only the 'any amount' clause is sampled. Oracle: a reference table written by hand from the SI brochure, the 1959 yard-pound agreement and IEC 80000-13.")
 RULE = ("enumerated completely: every predefined unit, every ordered unit pair per linear type, every SI prefix, "
         "every row of the tables in quantity.predefined.__doc__, the regenerated tables of "
         "utils/make_predef_units_doc.py, temperature equivalence rows; generated: amounts for pair conversion. "
